@@ -828,6 +828,11 @@ pub fn step(ex: &mut Exec, st: &mut L1State, op: &str, toks: &[&str]) -> Option<
                         let oc: Vec<String> = oc.iter().map(|(e, i)| format!("{i}:{e}")).collect();
                         traces.push(format!("sch.validate {} {} {} -> {}", batches.len(), base_epoch, ev.join(","), oc.join(",")));
                     }
+                    if fault.is_some() {
+                        // non-vacuity of the fault scenarios: how often the fault was reached, and what the call returned
+                        let failed = r.outcomes.iter().filter(|o| o.is_err()).count();
+                        ex.stats.bump("sch.enum.fault", if !r.fault_fired { "fault-not-reached" } else if failed > 0 { "fired-call-failed" } else { "fired-call-succeeded" });
+                    }
                     let verdict = judge::<TC>(&base, base_epoch, &batches, &r);
                     let stuck = matches!(&verdict, Some((t, _)) if t == "call-never-returned");
                     if let Some((tag, what)) = verdict {
